@@ -7,6 +7,7 @@ import (
 	"math"
 	"os"
 	"path/filepath"
+	"regexp"
 	"sort"
 	"strings"
 
@@ -150,7 +151,53 @@ func contextRun(args []string) int {
 		os.RemoveAll(d2)
 		w.emit(ev)
 	})
+	// every file name the analyzer's own detectors compare a name with (`filename == "..."`, `case "...":`) is, by the
+	// program's own statement, a marker: a directory holding only that file is not "generic"
+	nlit := 0
+	if src, err := os.ReadFile(filepath.Join(repoPath(), "internal", "context", "analyzer.go")); err == nil {
+		names := map[string]bool{}
+		for _, m := range regexp.MustCompile(`filename == "([^"]+)"`).FindAllStringSubmatch(string(src), -1) {
+			names[m[1]] = true
+		}
+		inSwitch := false
+		for _, line := range strings.Split(string(src), "\n") {
+			t := strings.TrimSpace(line)
+			if strings.HasPrefix(t, "switch filename") {
+				inSwitch = true
+			} else if strings.HasPrefix(t, "func ") {
+				inSwitch = false
+			}
+			if inSwitch && strings.HasPrefix(t, "case ") {
+				for _, m := range regexp.MustCompile(`"([^"]+)"`).FindAllStringSubmatch(t, -1) {
+					names[m[1]] = true
+				}
+			}
+		}
+		sorted := []string{}
+		for n := range names {
+			sorted = append(sorted, n)
+		}
+		sort.Strings(sorted)
+		for _, n := range sorted {
+			d := filepath.Join(base, fmt.Sprintf("lit%d", nlit))
+			os.MkdirAll(d, 0o755)
+			if n == ".git" || n == "node_modules" {
+				os.Mkdir(filepath.Join(d, n), 0o755)
+			} else {
+				os.WriteFile(filepath.Join(d, n), []byte("{}\n"), 0o644)
+			}
+			c, aerr := wtfctx.NewAnalyzer().AnalyzeDirectory(d)
+			generic := aerr != nil || c == nil || len(c.ProjectTypes) == 0
+			if !generic {
+				generic = len(c.ProjectTypes) == 1 && string(c.ProjectTypes[0]) == "generic"
+			}
+			tr++
+			nlit++
+			w.emit(map[string]interface{}{"op": "ctxlit", "tr": tr, "name": n, "generic": generic})
+			os.RemoveAll(d)
+		}
+	}
 	w.close()
-	fmt.Printf("{\"directories\": %d}\n", tr)
+	fmt.Printf("{\"directories\": %d, \"marker_names\": %d}\n", tr, nlit)
 	return 0
 }
